@@ -175,6 +175,28 @@ def gen_cases(rng, tier):
     for _ in range(N):
         p = gen_small(rng)
         cases.append(("run", json.dumps(p, sort_keys=True), rng.choice(["resolve_exhaustive", "optimize_exhaustive"])))
+    # exactly one solution, placed first / last / anywhere in the enumeration order
+    for _ in range(N // 4):
+        n = rng.choice([6, 8, 10])
+        seq = rdna(rng, n)
+        free = sorted(rng.sample(range(n), rng.choice([1, 2, 2, 3, 3, 4])))
+        keep = tuple(i for i in range(n) if i not in free)
+        cs = [("AvoidChanges", kw(indices=keep))] if keep else []
+        if rng.random() < 0.4:
+            # some positions restricted to 2 or 3 nucleotides (sizes like 2x4, 3x4, 2x2x2)
+            i = rng.choice(free)
+            cs.append(("EnforceSequence", kw(location=(i, i + 1, 1), sequence=rng.choice("RYSWKMBDHV"))))
+        p0 = dict(seq=seq, constraints=tuple(cs), objectives=(), cfg=problems.gen_settings(rng), np_seed=rng.randint(0, 10**6))
+        try:
+            pr = problems.build_problem(p0)
+            vs = list(pr.mutation_space.all_variants(pr.sequence))
+        except Exception:  # noqa
+            continue
+        if not 2 <= len(vs) <= 300:
+            continue
+        target = rng.choice([vs[-1], vs[-1], vs[0], rng.choice(vs)])
+        p0["constraints"] = tuple(cs) + (("RequireExactly", kw(sequence=target)),)
+        cases.append(("run", json.dumps(p0, sort_keys=True), "resolve_exhaustive"))
     return cases, {}
 
 
